@@ -443,13 +443,13 @@ def finish(prop, mod, args, seed, cells, results, t0):
     print(f"[{prop} {args.tier}] cells={len(cells)} obligations={n_ob} discharged={n_dis} structural={n_struct_ok}/{n_struct} "
           f"canaries={n_can_ok}/{n_can} known={sum(h['n'] for h in known_hits.values())} new_violations={len(new_viol)} "
           f"inconclusive={len(inconclusive)} wall={wall:.1f}s solver={solver_tot.get('solver_s', 0):.1f}s")
+    for inc in inconclusive[:10]:
+        print("INCONCLUSIVE:", json.dumps(_jsonable(inc["cfg"]))[:300], "::", inc["why"][:600])
+        if inc.get("tb"):
+            print(inc["tb"][-1500:])
     if new_viol:
         return 1
     if inconclusive:
-        for inc in inconclusive[:10]:
-            print("INCONCLUSIVE:", json.dumps(_jsonable(inc["cfg"]))[:300], "::", inc["why"][:600])
-            if inc.get("tb"):
-                print(inc["tb"][-1500:])
         return 3
     return 0
 
